@@ -16,6 +16,8 @@ import Peppi.SlppBytes
 import Peppi.Tar
 import Peppi.SlppCut
 import Peppi.PeppiJson
+import Peppi.C02Bytes
+import Peppi.C02Example
 set_option linter.unusedVariables false
 namespace Peppi.Props.C02
 
@@ -28,7 +30,7 @@ theorem C01_any (T : TextOracle) (r : Replay) (s : Start) (gk : Option GeckoBloc
   _root_.Peppi.C01_any T r s gk h hmax
 
 /- from `Peppi.Lemmas.PeppiRound` -/
-theorem peppiRead_written {χ : Type} (T : TextOracle) (g : PGame χ) (startBytes : Bytes) (endBytes : Option Bytes) (trailerOk : Bool)
+theorem peppiRead_written {μ φ : Type} (T : TextOracle) (g : PGame μ φ) (startBytes : Bytes) (endBytes : Option Bytes) (trailerOk : Bool)
     (hstart : gameStart T startBytes = .ok g.start)
     (hend : endBytes.map gameEnd = g.fend.map Res.ok)
     (hgecko : ∀ c, g.gecko = some c → c.2 < 2 ^ 32)
@@ -186,12 +188,13 @@ theorem arrow_Velocity : structArrowOK true Velocity.views = true :=
   _root_.Peppi.arrow_Velocity 
 
 /- from `Peppi.SlppBytes` -/
-theorem slppRead_written {χ : Type} (C : Codec χ) (T : TextOracle) (g : PGame χ) (startBytes : Bytes) (endBytes : Option Bytes)
+theorem slppRead_written {μ φ : Type} (C : Codec μ φ) (T : TextOracle) (g : PGame μ φ) (startBytes : Bytes) (endBytes : Option Bytes)
     (hstart : gameStart T startBytes = .ok g.start)
     (hend : endBytes.map gameEnd = g.fend.map Res.ok)
     (hgecko : ∀ c, g.gecko = some c → c.2 < 2 ^ 32)
     (hs : SizesOK C g startBytes endBytes) (skip : Bool) :
-    slppRead C T skip (slppWrite C g startBytes endBytes) = .ok (if skip then { g with frames := none } else g) :=
+    slppRead C T skip (slppWrite C g startBytes endBytes) =
+      .ok (if skip then { g with frames := none } else { g with frames := g.frames.map C.norm }) :=
   _root_.Peppi.slppRead_written C T g startBytes endBytes hstart hend hgecko hs skip
 
 /- from `Peppi.Tar` -/
@@ -200,25 +203,57 @@ theorem tarRead_archive (es : List (Bytes × Bytes)) (hes : ∀ e ∈ es, EntryO
   _root_.Peppi.tarRead_archive es hes fuel hf
 
 /- from `Peppi.SlppBytes` -/
-theorem slppRead_written_json (C : Codec KVs) (T : TextOracle) (g : PGame KVs) (startBytes : Bytes) (endBytes : Option Bytes)
+theorem slppRead_written_json {φ : Type} (C : Codec KVs φ) (T : TextOracle) (g : PGame KVs φ) (startBytes : Bytes) (endBytes : Option Bytes)
     (hstart : gameStart T startBytes = .ok g.start)
     (hend : endBytes.map gameEnd = g.fend.map Res.ok)
     (hgecko : ∀ c, g.gecko = some c → c.2 < 2 ^ 32)
     (hs : SizesOK C.withJsonMeta g startBytes endBytes) (skip : Bool) :
-    slppRead C.withJsonMeta T skip (slppWrite C.withJsonMeta g startBytes endBytes) = .ok (if skip then { g with frames := none } else g) :=
+    slppRead C.withJsonMeta T skip (slppWrite C.withJsonMeta g startBytes endBytes) =
+      .ok (if skip then { g with frames := none } else { g with frames := g.frames.map C.norm }) :=
   _root_.Peppi.slppRead_written_json C T g startBytes endBytes hstart hend hgecko hs skip
 
 /- from `Peppi.SlppCut` -/
-theorem slppRead_written_json2 (C : Codec KVs) (T : TextOracle) (g : PGame KVs) (startBytes : Bytes) (endBytes : Option Bytes)
+theorem slppRead_written_json2 {φ : Type} (C : Codec KVs φ) (T : TextOracle) (g : PGame KVs φ) (startBytes : Bytes) (endBytes : Option Bytes)
     (hstart : gameStart T startBytes = .ok g.start)
     (hend : endBytes.map gameEnd = g.fend.map Res.ok)
     (hgecko : ∀ c, g.gecko = some c → c.2 < 2 ^ 32)
     (hs : SizesOK C.withJson g startBytes endBytes) (skip : Bool) :
-    slppRead C.withJson T skip (slppWrite C.withJson g startBytes endBytes) = .ok (if skip then { g with frames := none } else g) :=
+    slppRead C.withJson T skip (slppWrite C.withJson g startBytes endBytes) = .ok (if skip then { g with frames := none } else { g with frames := g.frames.map C.norm }) :=
   _root_.Peppi.slppRead_written_json2 C T g startBytes endBytes hstart hend hgecko hs skip
 
 /- from `Peppi.PeppiJson` -/
 theorem decPeppiJ_enc (h : Option String) (q : Option Bool) : decPeppiJ (encPeppiJ h q) = .ok ⟨true, h, q⟩ :=
   _root_.Peppi.decPeppiJ_enc h q
+
+/- from `Peppi.C02Bytes` -/
+open Extracted in
+theorem C02_bytes (C : Codec KVs AFrame) (hnorm : C.norm = normF) (T : TextOracle) (r : Replay) (s : Start) (gk : Option GeckoBlocks)
+    (h : r.WFAny T s gk) (hmax : assertMaxVersion s.version = .ok ())
+    (hsize : ∀ g, readSlp T {} (r.encodeAny s.version (portOccupancy s) gk) = .ok g →
+      SizesOK C (toP g none) g.start.bytes (g.fend.map (·.bytes))) :
+    ∃ g p, readSlp T {} (r.encodeAny s.version (portOccupancy s) gk) = .ok g ∧
+      slppRead C T false (slppWrite C (toP g none) g.start.bytes (g.fend.map (·.bytes))) = .ok p ∧
+      writeSlp (ofP p) = .ok (r.encodeAny s.version (portOccupancy s) gk) :=
+  _root_.Peppi.C02_bytes C hnorm T r s gk h hmax hsize
+
+/- from `Peppi.C02Bytes` -/
+open Extracted in
+theorem import_export (v : Ver) (shape : List PortOccupancy) (h : List FrameOcc) (hok : ∀ o ∈ h, o.OK v (nSlots shape)) :
+    fromF' (v.gte 3 0) (normF (intoF' (widthsOf v) (expFrames v shape h))) = expFrames v shape h :=
+  _root_.Peppi.import_export v shape h hok
+
+/- from `Peppi.C02Bytes` -/
+open Extracted in
+theorem expFrames_rowsOK (v : Ver) (shape : List PortOccupancy) (h : List FrameOcc)
+    (hok : ∀ o ∈ h, o.OK v (nSlots shape)) : FrameRowsOK (widthsOf v) (expFrames v shape h) :=
+  _root_.Peppi.expFrames_rowsOK v shape h hok
+
+/- from `Peppi.C02Example` -/
+open Extracted in
+theorem C02_bytes_example :
+    ∃ g p, readSlp T0 {} (exR.encodeAny exS.version (portOccupancy exS) none) = .ok g ∧
+      slppRead exCodecA T0 false (slppWrite exCodecA (toP g none) g.start.bytes (g.fend.map (·.bytes))) = .ok p ∧
+      writeSlp (ofP p) = .ok (exR.encodeAny exS.version (portOccupancy exS) none) :=
+  _root_.Peppi.C02_bytes_example 
 
 end Peppi.Props.C02
